@@ -95,7 +95,7 @@ def parity(e, x):
     return rec(e)
 
 def run(tier):
-    ck = Check('C18', tier, 'proof', 'interval + NaN-flag analysis of the helper bodies with unconstrained arguments (totality), sign-parity dataflow (oddness), piecewise interval analysis (expf saturation)')
+    ck = Check('C18', tier, 'proof', 'interval + NaN-flag analysis of the helper bodies with unconstrained arguments (totality), sign-parity dataflow (oddness), piecewise interval analysis (expf saturation), certified approximation error (mean-value interval branch and bound of polynomial vs log2/exp2, bit-trick guess + rational error map for cbrtf, a-priori round-off)')
     builds = ['K1', 'K3'] if tier == 'quick' else ['K1', 'K2', 'K3', 'K4']
     for b in builds:
         ctx = Ctx(b, 'yuvxyb_math')
@@ -125,20 +125,56 @@ def run(tier):
                 if name == 'cbrtf':
                     p = parity(body, formals[0])
                     ck.ob(base + '/odd', 'PROVED' if p == 'odd' else 'UNDECIDED', 'cbrtf(-x) == -cbrtf(x) by sign-parity of every operation' if p == 'odd' else f"sign-parity analysis yields {p}")
-                    w = accuracy_witness_cbrt(ctx, formals, body)
-                    if w: ck.ob(base + '/accuracy-witness', 'REFUTED', w)
                 if name == 'expf':
                     expf_saturation(ck, ctx, base, formals, body, b)
-                    w = accuracy_witness_exp(ctx, formals, body)
-                    if w: ck.ob(base + '/accuracy-witness', 'REFUTED', w)
-                if name == 'powf':
-                    w = accuracy_witness_pow(ctx, formals, body)
-                    if w: ck.ob(base + '/accuracy-witness', 'REFUTED', w)
+                if name in ('cbrtf', 'expf', 'powf'):
+                    accuracy(ck, ctx, base, name, formals, body)
             except Unsupported as ex:
                 ck.ob(base, 'UNDECIDED', f"analysis lost: {ex}")
     ck.floor('helpers', 8)
-    ck.note('not_decided', ['cbrtf within 1 ulp', 'powf relative error <= 2.5e-4 + 8e-6|y|', 'expf relative error <= 1e-5 on [-85,85]'])
+    ck.assumptions.append('A-libm: the host libm cbrt/pow/exp used by the non-fastmath build (K3) and as the mathematical reference are correctly rounded to within 1 ulp')
+    ck.assumptions.append('float64 interval arithmetic with two-ulp outward rounding encloses the real functions log, exp, cbrt of the analysing host')
     return ck.finish()
+
+def is_libm_only(body):
+    return not any(n.op in ('cast:bits', 'ftoi_unchecked') for n in X.walk(body)) and any(n.op.startswith('call:') for n in X.walk(body))
+
+def accuracy(ck, ctx, base, name, formals, body):
+    """the accuracy clause of the contract, from certified approximation and round-off bounds (engine/approx.py)"""
+    from engine import approx
+    key = base + '/accuracy'
+    if is_libm_only(body):
+        ck.ob(key, 'PROVED', f"{name} is the libm function in this build (A-libm)", nontrivial=False)
+        return
+    witness = {'cbrtf': accuracy_witness_cbrt, 'expf': accuracy_witness_exp, 'powf': accuracy_witness_pow}[name]
+    try:
+        if name == 'powf':
+            c = approx.powf_model(ctx.crate, formals, body)
+            b0, b80 = approx.powf_bound(c, 0.0), approx.powf_bound(c, 80.0)
+            ok = b0 <= 2.5e-4 and b80 <= 2.5e-4 + 8e-6 * 80
+            ck.note(f"{base}/certified", dict(delta_log2=c['delta_log2'], log2_roundoff=c['log2_round_abs'], eps_exp2=c['eps_q'], exp2_roundoff=c['q_round_abs'],
+                                              bound_y0=b0, bound_y80=b80, boxes=c['boxes'], bounds={str(y): approx.powf_bound(c, y) for y in (0.4166667, 2.4, 6.277, 78.84375)}))
+            text = (f"|powf/x^y - 1| <= {b0:.4g} at y=0 and <= {b80:.4g} at |y|=80 (bound convex in |y|, contract linear): sup|P(m)(m-1) - log2 m| <= {c['delta_log2']:.4g} on [1,2), "
+                    f"sup|Q(f)/2^f - 1| <= {c['eps_q']:.4g} on [-0.5,1.5] (mean-value interval branch and bound, {c['boxes']} boxes), round-off {c['log2_round_abs']:.3g} / {c['q_round_abs']:.3g}")
+        elif name == 'expf':
+            c = approx.expf_model(ctx.crate, formals, body)
+            ok = c['bound'] <= 1e-5
+            ck.note(f"{base}/certified", c)
+            text = f"|expf/e^x - 1| <= {c['bound']:.4g} on [-85,85]: exponent error {c['exponent_error']:.3g} (constant {c['log2e']!r} vs log2 e, product rounding), sup|Q(f)/2^f - 1| <= {c['eps_frac']:.3g} on [0,1]"
+        else:
+            c = approx.cbrtf_model(ctx.crate, formals, body)
+            ok = c['total_rel'] <= 2.0 ** -26
+            ck.note(f"{base}/certified", c)
+            text = (f"bit-trick guess within {c['guess_rel']:.4g} of cbrt (period-3 analysis of bits/3 + {c['B']}), iteration error map H(e) = O(e^{c['iteration_order']}) gives {c['iter_rel']:.3g}, "
+                    f"cancellation-free f64 round-off {c['roundoff_rel']:.3g}: the f64 iterate is within 2^-26 relative, so its rounding to f32 is within 1 ulp (positive normal x; negative by oddness)")
+        if ok:
+            ck.ob(key, 'PROVED', text)
+        else:
+            w = witness(ctx, formals, body)
+            ck.ob(key, 'REFUTED' if w else 'UNDECIDED', (w + '; ' if w else '') + 'certified bound exceeds the contract: ' + text)
+    except Unsupported as ex:
+        w = witness(ctx, formals, body)
+        ck.ob(key, 'REFUTED' if w else 'UNDECIDED', (w + '; ' if w else '') + f"approximation structure not recognised: {ex}")
 
 def expf_saturation(ck, ctx, base, formals, body, b):
     x = formals[0]
